@@ -93,11 +93,13 @@ func c12(r *core.Run) []*core.Violation {
 		}
 		vals[i] = cv
 	}
+	forget := false
 	s.OnRestart = func() {
 		for _, cv := range vals {
 			s.N.SyncAccount(cv.v.Acct)
-			cv.pendingKA = nil
 		}
+		// what is still pending after this block's results have been processed died with the mempool
+		forget = true
 	}
 	hasByte := func(cv *c12Val) bool { return bytes.IndexByte(cv.v.Acct.Addr, 0x2c) >= 0 }
 	var viols []*core.Violation
@@ -187,7 +189,11 @@ func c12(r *core.Run) []*core.Violation {
 				}
 			}
 			cv.pendingKA = rest
+			if forget {
+				cv.pendingKA = nil
+			}
 		}
+		forget = false
 		// observe jail flags
 		type obs struct {
 			jailed bool
